@@ -38,11 +38,13 @@ def run(prop, tier):
                 combos = r.sample(combos, 40)
             for owns in combos:
                 for kinds in ([("mem",) * n, ("disk",) * n] if quick else list(itertools.product(("mem", "disk"), repeat=n))):
-                    chains.append([{"own": list(o), "kind": k} for o, k in zip(owns, kinds)])
+                    chains.append([{"own": list(o), "kind": k, "nul": [x for x in o if r.random() < 0.3]} for o, k in zip(owns, kinds)])
         if not quick:
             for _ in range(300):   # longer chains, 4 keys
                 n = 4
                 chains.append([{"own": sorted(r.sample([1, 2, 3, 4], r.randint(0, 4))), "kind": r.choice(["mem", "disk"])} for _ in range(n)])
+                for lv in chains[-1]:
+                    lv["nul"] = [x for x in lv["own"] if r.random() < 0.3]
         for i, ch in enumerate(chains):
             plans = step_plans(len(ch))
             for pi, plan in enumerate(plans):
@@ -71,5 +73,5 @@ def run(prop, tier):
                      "kinds": [lv["kind"] for lv in t["chain"]], "level": e.get("level"), "how": e.get("how"),
                      "why": sorted(rj["why"]), "exc": e.get("exc", "")[:120], "nlevels": len(t["chain"])}
             rep.violation(facts, {"job": jobs[rj["tid"] - 1], "events": t["ev"], "failed_clauses": sorted(rj["why"])})
-        rep.assumptions += ["values inside partitions are tagged (key, level) strings/lists/dicts; value kinds inside partitions are covered by C02"]
+        rep.assumptions += ["values inside partitions are tagged (key, level) strings/lists/dicts, or None (30% of the own keys); value kinds inside partitions are covered by C02"]
     return rep.finish()
